@@ -176,17 +176,19 @@ class IsUniqueCheck(AbstractCheck):
                         + "but found: %r [token type=%r]" % (token_value, token_type),
                         self.location_of_rule,
                     )
+                # NOTE: The tokenizer considers certain white space (for example a no-break space) part of the name.
+                field_name = token_value.strip()
                 try:
-                    fields.field_name_index(token_value, available_field_names, location)
-                    if token_value in unique_field_names:
+                    fields.field_name_index(field_name, available_field_names, location)
+                    if field_name in unique_field_names:
                         raise errors.InterfaceError(
-                            "duplicate field name for unique check must be removed: %s" % token_value,
+                            "duplicate field name for unique check must be removed: %s" % field_name,
                             self.location_of_rule,
                         )
-                    unique_field_names.add(token_value)
+                    unique_field_names.add(field_name)
                 except errors.InterfaceError as error:
                     raise errors.InterfaceError(str(error))
-                self._field_names_to_check.append(token_value)
+                self._field_names_to_check.append(field_name)
             elif not _tools.is_comma_token(next_token):
                 raise errors.InterfaceError(
                     "after field name a comma (,) must follow but found: %r" % token_value, self.location_of_rule
@@ -233,7 +235,8 @@ class DistinctCountCheck(AbstractCheck):
             raise errors.InterfaceError(
                 "rule must start with a field name but found: %r" % first_token[1], self.location_of_rule
             )
-        self._field_name_to_count = first_token[1]
+        # NOTE: The tokenizer considers certain white space (for example a no-break space) part of the name.
+        self._field_name_to_count = first_token[1].strip()
         fields.field_name_index(self._field_name_to_count, available_field_names, location)
         line_where_field_name_ends, column_where_field_name_ends = first_token[3]
         assert column_where_field_name_ends > 0
